@@ -435,6 +435,7 @@ fn gen(r: &mut Rng, tier: &Tier, out: &mut Vec<String>) {
             let ck = if tfo { *r.pick(&[1u64, 1, 1, 0]) } else { *r.pick(&[1u64, 0, 2]) };
             let mut sp = cflow::ConnSpec::new(ck, (case / 2 + j) % 2 == 1, (case as u64 * 19 + j as u64 * 43) % 4000 + j as u64 * 6000);
             sp.tfo = tfo;
+            if r.chance(1, 2) { sp.macs = Some(cflow::pick_macs(r)); }   // MAC first octets 0x45.., 0x6X, 1e 00, 00, ff
             let t0 = 1_000_000 + r.below(1000);
             conns.push(cflow::connection(r, &sp, t0));
         }
